@@ -10,6 +10,22 @@ for l in open(os.path.join(VERIF, "properties.jsonl")):
 
 # id -> (category, technique, text, note, design_ref)
 CLAIMED = {
+    "C02": ("proof",
+            "Lean 4 theorems (sign/skip policy = authorisation rule for all flag combinations; digest dispatch per script type) + independent Lean signature verification against the consensus digest",
+            "Props/C02.lean proves for every caller flag, every per-input flag (all naturals) and both input kinds that an input is "
+            "signed exactly when its flag is authorised (ALL/DEFAULT interchangeable, None = whatever the PSBT requests), that it is "
+            "signed with the input's effective flag, that a caller authorising ALL/DEFAULT never yields a weaker flag, and that the "
+            "digest algorithm and BIP143 script code chosen for P2PKH, P2SH, P2WPKH, P2SH-P2WPKH, P2WSH, P2SH-P2WSH and P2TR scopes "
+            "are the consensus ones (digests themselves: C01). Partial by design: that every signature added verifies under the key "
+            "it is filed under against the consensus digest of exactly that PSBT/input/flag, that the signed set is exactly the "
+            "involved keys, count = number added and nothing else changes are decided on every run — not proved — by signing "
+            "generated wallets' PSBTs with embit (in memory and through PSBTView) and checking each signature with the independent "
+            "Lean ECDSA/BIP340 verifier against the Lean consensus digest, and the signed set against the set derived from how the "
+            "wallet was built.",
+            "Trusted: Lean kernel + propext/Quot.sound/Classical.choice; the Lean reference secp256k1/SHA-256 and verifiers "
+            "(cross-validated against embit on every run); harness wallet builder and expected-set computation; unforgeability is "
+            "not claimed.",
+            "§5 C02"),
     "C05": ("proof",
             "Lean 4 theorems (view offset arithmetic = encoding layout; scope skipping; exact-key lookup; merge keeps fields) + correspondence + view-vs-memory predicate",
             "Props/C05.lean proves for every unsigned transaction, every pair list and every stream prefix/suffix: the counts and "
